@@ -36,7 +36,7 @@ PROP = {
                    "tasks are alive is polled (or, if cancelled, dropped) in a tick numbered <= ticks_started + 1 + floor(L / "
                    "max_interval); the bound is reached exactly (floor `st:starvation-bound-reached-exactly`). Remote "
                    "cancel/handle-drop: 'not polled again' is judged after the foreign thread is joined (an in-flight poll "
-                   "cannot be told from a late one without hooks). A remotely cancelled future that is still alive after the FIFO bound (Task::cancel schedules before it marks; dropped at the next wake or with the executor) is counted as an observation: the statement demands exactly-once drop at home and no poll after cancel, not promptness; never dropped once the executor is gone stays a violation. A JoinHandle pending on another thread when the Executor is "
+                   "cannot be told from a late one without hooks). Dropping / cancelling a handle on another thread: once that call has returned (thread joined) the owner ticks 2 + floor(tasks / max_interval) times (first tick drains the sync queue and appends the task to the FIFO hot list) and the future must be dropped by then (`C04/future-drop/late/*`, logical bound in owner ticks, no clock). A JoinHandle pending on another thread when the Executor is "
                    "dropped is never woken (it would observe Cancelled if polled): counted as an observation, the statement does "
                    "not promise that wake-up. Programs that drop the executor while foreign threads are active run in their own "
                    "legs (`*-teardown`) because a use-after-free ends the process and with it the shard."),
